@@ -292,6 +292,8 @@ Lemma grows_unbump_l r u : grows (unbump u r) r.
 Proof. by repeat split. Qed.
 Lemma grows_off r r' : grows r r' → last_len r = None → last_len r' = None.
 Proof. intros [_ (E&_)] H. by rewrite E. Qed.
+Lemma grows_mx r r' : grows r r' → max_nodes r = None → max_nodes r' = None.
+Proof. intros [_ Hf] H. by rewrite (frame_max_nodes _ _ Hf). Qed.
 Lemma grows_valid r r' u : grows r r' → valid r u → valid r' u.
 Proof. intros [He _]. by apply valid_extends. Qed.
 Lemma grows_denv r r' u ρ : grows r r' → Inv r → valid r u → denv r' u ρ = denv r u ρ.
@@ -329,11 +331,12 @@ Qed.
 
 (** ** 5. [var] and [ite] on a receiver with reordering disabled *)
 Lemma var_run s L n j r s' :
-  Inv s → last_len s = None → Counts s L → vars s !! n = Some j → var n s = (r, s') →
+  Inv s → last_len s = None → max_nodes s = None → Counts s L → vars s !! n = Some j →
+  var n s = (r, s') →
   ∃ u, r = Ok u ∧ Inv s' ∧ grows s s' ∧ Counts s' L ∧ valid s' u ∧
        ∀ ρ, denv s' u ρ = ρ n.
 Proof.
-  intros HI Hoff HC Hj Hrun.
+  intros HI Hoff Hmx HC Hj Hrun.
   destruct (tsafe_var n s r s' HI Hoff Hrun) as (HI'&He&Hf&HC').
   unfold var in Hrun.
   apply try_to_reorder_inert in Hrun as (r1&s1&Hrun&Hcase).
@@ -346,7 +349,7 @@ Proof.
   2: by apply valid_m1. 2: by apply valid_1.
   2: by rewrite (lvl_term s0 HI0). 2: by rewrite (lvl_term s0 HI0).
   destruct r1 as [u|e]; cycle 1.
-  { destruct Hr as (_&[l Hl]&_). change (last_len s0) with (last_len s) in Hl. congruence. }
+  { by destruct (benign_never s0 e Hoff Hmx (proj1 Hr)). }
   destruct Hcase as [[? _]|[-> ->]]; [done|].
   destruct Hr as (Hu&_&HD). exists u.
   split; [done|]. split; [done|]. split; [done|]. split; [by apply HC'|].
@@ -357,14 +360,15 @@ Proof.
 Qed.
 
 Lemma ite_run s L g u v r s' :
-  Inv s → last_len s = None → Counts s L → valid s g → valid s u → valid s v →
+  Inv s → last_len s = None → max_nodes s = None → Counts s L →
+  valid s g → valid s u → valid s v →
   ite g u v s = (r, s') →
   ∃ w, r = Ok w ∧ Inv s' ∧ grows s s' ∧ Counts s' L ∧ valid s' w ∧
        ∀ ρ, denv s' w ρ = if denv s g ρ then denv s u ρ else denv s v ρ.
 Proof.
-  intros HI Hoff HC Hg Hu Hv Hrun.
+  intros HI Hoff Hmx HC Hg Hu Hv Hrun.
   pose proof (ite_counts s L g u v r s' HI Hoff HC Hrun) as HC'.
-  destruct (ite_spec_off s g u v r s' HI Hg Hu Hv Hoff Hrun) as (w&->&HI'&He&Hf&Hw&HD).
+  destruct (ite_spec_off s g u v r s' HI Hg Hu Hv Hoff Hmx Hrun) as (w&->&HI'&He&Hf&Hw&HD).
   exists w. split; [done|]. split; [done|]. split; [done|]. split; [done|].
   split; [done|]. intros ρ. unfold denv. destruct He as (_&_&El). rewrite <- El. apply HD.
 Qed.
@@ -471,7 +475,7 @@ Section node_false.
 Context (s : st) (HIs : Inv s) (vl : list (nat * nat)) (Hvl : vars_file s vl).
 
 Lemma make_node_false cache k t r H n L :
-  Inv r → last_len r = None → Counts r L →
+  Inv r → last_len r = None → max_nodes r = None → Counts r L →
   (∀ v l, vars s !! v = Some l → is_Some (vars r !! v)) →
   jcache_ok s r cache → cache !! k = None →
   succ s !! k = Some t → k ≠ 1%positive →
@@ -483,7 +487,7 @@ Lemma make_node_false cache k t r H n L :
     Inv r' ∧ grows r r' ∧ Counts r' (ledger_inc L (absn u)) ∧
     jcache_ok s r' (<[k := u]> cache).
 Proof.
-  intros HIr Hoff HC Hdecl Hc Hk Ht Hk1 Hlo Hhi.
+  intros HIr Hoff Hmx HC Hdecl Hc Hk Ht Hk1 Hlo Hhi.
   destruct (inv_node _ HIs _ _ Ht Hk1) as (Hl&Hvlo&Hhp&Hvhi&_).
   destruct (node_has_var s (Z.pos k) t HIs Ht Hk1) as (v&Hlv&Hv).
   destruct (Hdecl v _ Hv) as [j Hj].
@@ -507,7 +511,7 @@ Proof.
   assert (G02 : grows r r2) by (by repeat split).
   (* g = var v *)
   destruct (var v r2) as [rg r3] eqn:Eg.
-  destruct (var_run r2 L2 v j rg r3 HI2 Hoff HC2 Hj Eg) as (g&->&HI3&G23&HC3&Hvg&HDg).
+  destruct (var_run r2 L2 v j rg r3 HI2 Hoff Hmx HC2 Hj Eg) as (g&->&HI3&G23&HC3&Hvg&HDg).
   set (r4 := bump g r3).
   assert (HI4 : Inv r4) by (by apply Inv_bump).
   assert (HC4 : Counts r4 (ledger_inc L2 (absn g))) by (by apply Counts_bump).
@@ -518,7 +522,8 @@ Proof.
   (* u = ite g high low *)
   destruct (ite g high low r4) as [ru r5] eqn:Eu.
   assert (Hoff4 : last_len r4 = None) by (by apply (grows_off r r4)).
-  destruct (ite_run r4 _ g high low ru r5 HI4 Hoff4 HC4 Hvg4 Hvh4 Hvl4 Eu)
+  assert (Hmx4 : max_nodes r4 = None) by (by apply (grows_mx r r4)).
+  destruct (ite_run r4 _ g high low ru r5 HI4 Hoff4 Hmx4 HC4 Hvg4 Hvh4 Hvl4 Eu)
     as (u&->&HI5&G45&HC5&Hvu&HDu).
   assert (Hvg5 : valid r5 g) by (by apply (grows_valid r4 r5)).
   set (r6 := unbump g r5).
@@ -621,7 +626,7 @@ Lemma catch_ok {S A} (m : M S A) s a s' : m s = (Ok a, s') → catch m s = (Ok (
 Proof. unfold catch. by intros ->. Qed.
 
 Lemma load_nodes_false s vl r H n L nodes :
-  Inv s → vars_file s vl → Inv r → last_len r = None → Counts r L →
+  Inv s → vars_file s vl → Inv r → last_len r = None → max_nodes r = None → Counts r L →
   (∀ v l, vars s !! v = Some l → is_Some (vars r !! v)) →
   jwf s nodes →
   ∃ cache r', make_nodes (jvat vl) false ∅ nodes (ASt r H n)
@@ -630,7 +635,7 @@ Lemma load_nodes_false s vl r H n L nodes :
     (∀ k, is_Some (cache !! k) ↔ k ∈ nodes.*1) ∧
     Counts r' (ledger_add L (map_to_list cache).*2).
 Proof.
-  intros HIs Hvl HIr Hoff HC Hdecl Hwf.
+  intros HIs Hvl HIr Hoff Hmx HC Hdecl Hwf.
   induction Hwf as [|acc k t Hwf IH Hk Ht Hk1 Hlo Hhi].
   { exists ∅, r. split; [done|]. split; [done|]. split; [reflexivity|].
     split; [intros k x Hx; by rewrite lookup_empty in Hx|]. split.
@@ -641,7 +646,8 @@ Proof.
   { apply eq_None_not_Some. intros Hs. by apply Hdom in Hs. }
   assert (Hch : ∀ c, child_ok acc c → absn c = 1%positive ∨ is_Some (cache !! absn c)).
   { intros c [?|Hc]; [by left|right]. by apply Hdom. }
-  destruct (make_node_false s HIs vl Hvl cache k t r1 H n _ HI1 (grows_off r r1 G1 Hoff) HC1)
+  destruct (make_node_false s HIs vl Hvl cache k t r1 H n _ HI1 (grows_off r r1 G1 Hoff)
+              (grows_mx r r1 G1 Hmx) HC1)
     as (u&r2&E2&HI2&G2&HC2&Hc2); try done; try (by apply Hch).
   { intros v l Hv. rewrite (grows_vars r r1 G1). by apply (Hdecl v l). }
   exists (<[k := u]> cache), r2. rewrite (make_nodes_app _ _ _ _ _ _ _ _ E1).
@@ -915,7 +921,7 @@ Qed.
 Theorem json_load_false s roots vorder jf r0 H n L :
   Inv s → json_file s roots vorder jf → roots ≠ RNone →
   Forall (valid s) (roots_values roots) →
-  Inv r0 → last_len r0 = None → Counts r0 L →
+  Inv r0 → last_len r0 = None → max_nodes r0 = None → Counts r0 L →
   ∃ r1 r' us,
     declare (jf_levels jf).*1 r0 = (Ok tt, r1) ∧
     a_load_json jf false (ASt r0 H n)
@@ -931,14 +937,15 @@ Theorem json_load_false s roots vorder jf r0 H n L :
     Forall2 (same_fun s r') (roots_values roots) us ∧
     Counts r' (ledger_add L us).
 Proof.
-  intros HIs (Eroots&Evo&Hvl&Hwf&Hrc&_) Hnone Hr HI0 Hoff HC0.
+  intros HIs (Eroots&Evo&Hvl&Hwf&Hrc&_) Hnone Hr HI0 Hoff Hmx HC0.
   destruct (declare (jf_levels jf).*1 r0) as [rd r1] eqn:Ed.
   destruct (declare_run _ r0 rd r1 HI0 Ed) as (->&HI1&Hf1&HC1&Hd1&Hsub1&Hin1&Hsame1).
   assert (Hdecl : ∀ v l, vars s !! v = Some l → is_Some (vars r1 !! v)).
   { intros v l Hv. apply Hin1. apply elem_of_list_fmap. exists (v, l). split; [done|].
     by apply Hvl. }
   assert (Hoff1 : last_len r1 = None) by (destruct Hf1 as (E&_); by rewrite E).
-  destruct (load_nodes_false s (jf_levels jf) r1 H n L (jf_nodes jf) HIs Hvl HI1 Hoff1
+  assert (Hmx1 : max_nodes r1 = None) by (by rewrite (frame_max_nodes _ _ Hf1)).
+  destruct (load_nodes_false s (jf_levels jf) r1 H n L (jf_nodes jf) HIs Hvl HI1 Hoff1 Hmx1
               (HC1 _ HC0) Hdecl Hwf) as (cache&r2&E2&HI2&G2&Hc2&Hdom&HC2).
   assert (Hroot : ∀ c, c ∈ roots_values roots →
             valid s c ∧ (absn c = 1%positive ∨ is_Some (cache !! absn c))).
@@ -978,7 +985,7 @@ Proof. unfold dump_json. cbn [bind get]. by intros [= <- _]. Qed.
 Theorem json_roundtrip_false s roots vorder jf sd b L :
   Inv s → Forall (valid s) (roots_values roots) →
   dump_json roots vorder s = (Ok jf, sd) →
-  Inv (mgr b) → last_len (mgr b) = None → Counts (mgr b) L →
+  Inv (mgr b) → last_len (mgr b) = None → max_nodes (mgr b) = None → Counts (mgr b) L →
   sd = s ∧
   ∃ b' r1 us,
     declare (jf_levels jf).*1 (mgr b) = (Ok tt, r1) ∧
@@ -999,12 +1006,12 @@ Theorem json_roundtrip_false s roots vorder jf sd b L :
     (* the reference counts *)
     Counts (mgr b') (ledger_add L us).
 Proof.
-  intros HIs Hr Hd HIb Hoff HC.
+  intros HIs Hr Hd HIb Hoff Hmx HC.
   assert (Hnone : roots ≠ RNone).
   { intros ->. by apply dump_json_none in Hd. }
   destruct (dump_json_spec s HIs roots vorder jf sd Hr Hd) as [-> Hjf].
   split; [done|]. destruct b as [r0 H n]. cbn [mgr handles next_hid] in *.
-  destruct (json_load_false s roots vorder jf r0 H n L HIs Hjf Hnone Hr HIb Hoff HC)
+  destruct (json_load_false s roots vorder jf r0 H n L HIs Hjf Hnone Hr HIb Hoff Hmx HC)
     as (r1&r'&us&Ed&El&HI1&Hf1&Hsub&Hdecl&Hsame&Hold&_&HI'&G'&HF&HC').
   assert (Hlen : length us = length (roots_values roots))
     by (symmetry; by eapply Forall2_length).
@@ -1078,6 +1085,7 @@ Proof.
   unfold assert.
   case_bool_decide; cbn [bind ret raise]; [|by intros [=]].
   case_bool_decide as Hfree; cbn [bind ret raise modify]; [|by intros [=]].
+  destruct (fits _ _); cbn [ensure bind ret raise modify]; [|by intros [=]].
   unfold bind at 1.
   match goal with |- context [incref (σ * v)%Z ?st] =>
     set (s2 := st); destruct (incref (σ * v)%Z s2) as [[[]|e] s3] eqn:E3; [|by intros [=]] end.
@@ -1152,7 +1160,7 @@ Lemma make_node_true cache k t r H n L :
     um_ok s r' (<[k := u]> cache) ∧ jpar s r' (<[k := u]> cache).
 Proof.
   intros Hrecv HC Hc Hpar Hk Ht Hk1 Hlo Hhi.
-  pose proof Hrecv as (HIr&Evars&El2v&Hoff).
+  pose proof Hrecv as (HIr&Evars&El2v&Hoff&Hmx).
   pose proof (recv_nvars s r Hrecv) as Hnv.
   destruct (inv_node _ HIs _ _ Ht Hk1) as (Hl&Hvlo&Hhp&Hvhi&Hll&Hlh&Hne).
   destruct (node_has_var s (Z.pos k) t HIs Ht Hk1) as (v&Hlv&Hv).
@@ -1183,7 +1191,7 @@ Proof.
   destruct (find_or_add (t_lvl t) low high r2) as [ru r3] eqn:Eu.
   pose proof (find_or_add_counts r2 L2 _ _ _ _ _ HI2 HC2 Eu) as HC3.
   destruct (find_or_add_spec r2 _ low high ru r3 HI2 Hvl2 Hvh2 Hll2 Hlh2 Eu) as (HI3&He3&Hf3&Hu).
-  destruct ru as [u|e]; [|destruct Hu as (_&[? Hx]&_); change (last_len r2) with (last_len r) in Hx; congruence].
+  destruct ru as [u|e]; [|by destruct (benign_never r2 e Hoff Hmx (proj1 Hu))].
   destruct Hu as (Hvu&Hlu&HDu).
   assert (G23 : grows r2 r3) by done.
   set (r4 := bump u r3).
@@ -1252,7 +1260,7 @@ Proof.
     rewrite (bind_ok _ _ _ tt (ASt r4 H n)) by done.
     by step (lift_run _ _ H n _ _ (incref_ok r4 u HI4 Hvu4)). }
   split.
-  { destruct G08 as [(_&Ev&El) (Ef&_)]. split; [done|]. split_and!; congruence. }
+  { destruct G08 as [(_&Ev&El) (Ef&_&_&_&Em)]. split; [done|]. split_and!; congruence. }
   split; [done|]. split; [done|]. split.
   - intros k' x. rewrite lookup_insert_Some. intros [[<- <-]|[_ Hx]].
     + split; [done|]. split; [done|]. split; [done|]. split.
@@ -1354,7 +1362,7 @@ Theorem json_load_true s roots vorder jf r0 H n r1 r2 L2 :
   declare (jf_levels jf).*1 (r0 <| last_len := None |>) = (Ok tt, r1) →
   (* ... PREMISE: [reorder(order)] succeeds and installs the file's order *)
   reorder (Some (list_to_map (reverse (jf_levels jf)))) r1 = (Ok tt, r2) →
-  Inv r2 → vars r2 = vars s → last_len r2 = None → Counts r2 L2 →
+  Inv r2 → vars r2 = vars s → last_len r2 = None → max_nodes r2 = None → Counts r2 L2 →
   ∃ r3 us,
     let r' := r3 <| last_len := Some (Nat.max REORDER_STARTS (len r3)) |> in
     a_load_json jf true (ASt r0 H n)
@@ -1363,7 +1371,7 @@ Theorem json_load_true s roots vorder jf r0 H n r1 r2 L2 :
     Forall2 (same_fun s r') (roots_values roots) us ∧
     Counts r' (ledger_add L2 us).
 Proof.
-  intros HIs (Eroots&Evo&Hvl&Hwf&Hrc&Hneed) Hnone Hr Ed Ere HI2 Ev2 Hoff2 HC2.
+  intros HIs (Eroots&Evo&Hvl&Hwf&Hrc&Hneed) Hnone Hr Ed Ere HI2 Ev2 Hoff2 Hmx2 HC2.
   assert (Hrecv2 : recv s r2).
   { split; [done|]. split; [done|]. split; [by apply lvl2var_of_vars|done]. }
   destruct (load_nodes_true s (jf_levels jf) r2 H n L2 (jf_nodes jf) HIs Hvl Hrecv2 HC2 Hwf)
@@ -1529,7 +1537,8 @@ Qed.
 Theorem json_load_true_same_order s roots vorder jf r0 H n L :
   Inv s → json_file s roots vorder jf → roots ≠ RNone →
   Forall (valid s) (roots_values roots) →
-  Inv r0 → vars r0 = vars s → Forall (valid r0) (Base.roots r0) → Counts r0 L →
+  Inv r0 → max_nodes r0 = None → vars r0 = vars s → Forall (valid r0) (Base.roots r0) →
+  Counts r0 L →
   ∃ r3 us,
     let r' := r3 <| last_len := Some (Nat.max REORDER_STARTS (len r3)) |> in
     a_load_json jf true (ASt r0 H n)
@@ -1538,7 +1547,7 @@ Theorem json_load_true_same_order s roots vorder jf r0 H n L :
     Forall2 (same_fun s r') (roots_values roots) us ∧
     Counts r' (ledger_add L us).
 Proof.
-  intros HIs Hjf Hnone Hr HI0 Ev Hroots HC.
+  intros HIs Hjf Hnone Hr HI0 Hmx Ev Hroots HC.
   set (r1 := r0 <| last_len := None |>).
   assert (HI1 : Inv r1) by (apply (Inv_same r0); [by repeat split|done]).
   assert (HC1 : Counts r1 L) by (by apply (Counts_same r0)).
@@ -1550,7 +1559,7 @@ Proof.
     change (vars r1) with (vars r0). rewrite Ev. exists l. by apply Hvl. }
   pose proof (reorder_same_order s (jf_levels jf) r1 HIs Hvl HI1 Ev Hroots) as Ere.
   destruct (json_load_true s roots vorder jf r0 H n r1 r1 L HIs Hjf Hnone Hr Ed Ere HI1 Ev
-              eq_refl HC1) as (r3&us&E&HI'&G&He&HF&HC').
+              eq_refl Hmx HC1) as (r3&us&E&HI'&G&He&HF&HC').
   exists r3, us. split; [exact E|]. split; [done|]. split; [exact He|].
   split; [|done]. destruct G as [_ (_&Hrc&_)]. exact Hrc.
 Qed.
@@ -1562,7 +1571,7 @@ Theorem json_roundtrip_true s roots vorder jf sd b r1 r2 L2 :
   declare (jf_levels jf).*1 (mgr b <| last_len := None |>) = (Ok tt, r1) →
   (* PREMISE on the [reorder] call *)
   reorder (Some (list_to_map (reverse (jf_levels jf)))) r1 = (Ok tt, r2) →
-  Inv r2 → vars r2 = vars s → last_len r2 = None → Counts r2 L2 →
+  Inv r2 → vars r2 = vars s → last_len r2 = None → max_nodes r2 = None → Counts r2 L2 →
   sd = s ∧
   ∃ b' us,
     a_load_json jf true b = (Ok (hroots_of roots (next_hid b)), b') ∧
@@ -1573,13 +1582,13 @@ Theorem json_roundtrip_true s roots vorder jf sd b r1 r2 L2 :
     Forall2 (same_fun s (mgr b')) (roots_values roots) us ∧
     Counts (mgr b') (ledger_add L2 us).
 Proof.
-  intros HIs Hr Hd Ed Ere HI2 Ev2 Hoff2 HC2.
+  intros HIs Hr Hd Ed Ere HI2 Ev2 Hoff2 Hmx2 HC2.
   assert (Hnone : roots ≠ RNone).
   { intros ->. by apply dump_json_none in Hd. }
   destruct (dump_json_spec s HIs roots vorder jf sd Hr Hd) as [-> Hjf].
   split; [done|]. destruct b as [r0 H n]. cbn [mgr handles next_hid] in *.
   destruct (json_load_true s roots vorder jf r0 H n r1 r2 L2 HIs Hjf Hnone Hr Ed Ere HI2 Ev2
-              Hoff2 HC2) as (r3&us&E&HI'&G&He&HF&HC').
+              Hoff2 Hmx2 HC2) as (r3&us&E&HI'&G&He&HF&HC').
   cbn zeta in *.
   assert (Hlen : length us = length (roots_values roots))
     by (symmetry; by eapply Forall2_length).
@@ -1592,7 +1601,8 @@ Qed.
 Theorem json_roundtrip_true_same_order s roots vorder jf sd b L :
   Inv s → Forall (valid s) (roots_values roots) →
   dump_json roots vorder s = (Ok jf, sd) →
-  Inv (mgr b) → vars (mgr b) = vars s → Forall (valid (mgr b)) (Base.roots (mgr b)) →
+  Inv (mgr b) → max_nodes (mgr b) = None → vars (mgr b) = vars s →
+  Forall (valid (mgr b)) (Base.roots (mgr b)) →
   Counts (mgr b) L →
   sd = s ∧
   ∃ b' us,
@@ -1604,12 +1614,12 @@ Theorem json_roundtrip_true_same_order s roots vorder jf sd b L :
     Forall2 (same_fun s (mgr b')) (roots_values roots) us ∧
     Counts (mgr b') (ledger_add L us).
 Proof.
-  intros HIs Hr Hd HIb Ev Hroots HC.
+  intros HIs Hr Hd HIb Hmx Ev Hroots HC.
   assert (Hnone : roots ≠ RNone).
   { intros ->. by apply dump_json_none in Hd. }
   destruct (dump_json_spec s HIs roots vorder jf sd Hr Hd) as [-> Hjf].
   split; [done|]. destruct b as [r0 H n]. cbn [mgr handles next_hid] in *.
-  destruct (json_load_true_same_order s roots vorder jf r0 H n L HIs Hjf Hnone Hr HIb Ev
+  destruct (json_load_true_same_order s roots vorder jf r0 H n L HIs Hjf Hnone Hr HIb Hmx Ev
               Hroots HC) as (r3&us&E&HI'&He&_&HF&HC').
   cbn zeta in *.
   assert (Hlen : length us = length (roots_values roots))
@@ -1951,7 +1961,9 @@ Qed.
 (** [load_json(..., load_order=False)] of ANY file into a consistent receiver
     with reordering disabled: it returns handles and the ledger gains exactly
     one reference per handle, or it raises, creates no handle and leaks no
-    reference.  In both cases the receiver only grows after [declare]. *)
+    reference.  In both cases the receiver only grows after [declare].  No
+    hypothesis on [max_nodes r0]: a full table ([RuntimeError]) is one of the
+    failures covered. *)
 Theorem json_load_false_total jf r0 H n L :
   Inv r0 → last_len r0 = None → Counts r0 L →
   ∃ res r1 r' H' n',
